@@ -159,7 +159,9 @@ class Scenario:
 
         def box(name: str, ip: str, kind: str):
             if name not in self.boxes:
-                self.boxes[name] = simnet.NatBox(net, ip, kind)
+                # pool: the box has a second external address and spreads its hosts over both (carrier / multi-WAN NAT)
+                pool = (ip.rsplit(".", 1)[0] + ".77",) if case.get("pool") else ()
+                self.boxes[name] = simnet.NatBox(net, ip, kind, pool=pool)
                 net.add_nat(self.boxes[name])
             return self.boxes[name]
 
@@ -558,7 +560,8 @@ def configurations() -> list[dict]:
 def base_case(cfg: dict, idx: int) -> dict:
     return {"natA": cfg["natA"], "natB": cfg["natB"], "place": cfg["place"], "style": cfg["style"],
             "b_new": cfg["b_new"], "fillers": [["pub", 0]] * (cfg["k"] - 1), "rseed": idx, "rounds": 1,
-            "picks": [], "early": 0, "order": 0, "alike": (idx // 5) % 2, "disc": (idx // 10) % 2}
+            "picks": [], "early": 0, "order": 0, "alike": (idx // 5) % 2, "disc": (idx // 10) % 2,
+            "pool": (idx // 20) % 2}
 
 
 def _strategy(cfg: dict):
@@ -576,6 +579,7 @@ def _strategy(cfg: dict):
         "order": st.integers(0, 23),
         "alike": st.integers(0, 1),
         "disc": st.integers(0, 1),
+        "pool": st.sampled_from([0, 0, 1]),
     })
 
 
